@@ -69,6 +69,18 @@ def gen(rng, tier):
             else:
                 d = doc_for(t, w, 0)
             cases.append(Case("td.hash " + hx(tdgen.dumps(d)), tags=("wrong-kind",), meta={"token": str(w) if isinstance(w, Raw) else None}))
+    # fixed-size arrays: every length 0..N+2 for N in {1,2,3,5}, several element types and nesting positions
+    for N in (1, 2, 3, 5):
+        for inner, val in (("uint8", 1), ("string", "s"), ("bool", True), ("bytes2", "0xabcd")):
+            for L in range(0, N + 3):
+                for nest in range(3):
+                    if nest == 2:
+                        types = {"P": [("qs", "Q[]")], "Q": [("vs", "%s[%d][2]" % (inner, N))]}
+                        msg = {"qs": [{"vs": [[val] * N, [val] * L]}]}
+                        d = {"types": tdgen.types_json(types, [("name", "string")]), "primaryType": "P", "domain": {"name": "d"}, "message": msg}
+                    else:
+                        d = doc_for("%s[%d]" % (inner, N), [val] * L, nest)
+                    cases.append(Case("td.hash " + hx(tdgen.dumps(d)), tags=("fixed-array", "N:%d" % N, "len:%+d" % (L - N))))
     # the known float-rounding class seen through typed data
     for tok in ["1.0000000000000001", "1e-400", "7.000000000000000000001", "9007199254740991.0"]:
         for t in ("uint64", "int64", "uint256"):
